@@ -204,6 +204,9 @@ fn artefacts(ctx: &Ctx) -> (String, String) {
 		if prop == Prop::C04 && ctx.replay.as_ref().map_or(true, |r| r.workload == "imported-names") {
 			c04_imported_names(ctx, &pool);
 		}
+		if prop == Prop::C04 && ctx.replay.as_ref().map_or(true, |r| r.workload == "foreign-spki") {
+			c04_foreign_spki(ctx, &pool);
+		}
 	}
 	if matches!(prop, Prop::C01 | Prop::C04 | Prop::C05 | Prop::C07) && wants("csr") {
 		csrs::run(ctx, prop, &pool, if prop == Prop::C07 { ctx.scale(12_000, 250_000) } else { ctx.scale(3_000, 80_000) });
@@ -676,6 +679,94 @@ fn c04_imported_names(ctx: &Ctx, pool: &[crate::keys::PoolKey]) {
 			}
 		}
 	});
+}
+
+/// C04: a subject public key handed over as SubjectPublicKeyInfo is written into the certificate
+/// issued for it. The loader reads BER-tolerantly, so the same key is offered with non-minimal
+/// lengths at each of its three levels; whatever is accepted must come out as the canonical DER.
+#[cfg(all(feature = "crypto", feature = "ossl"))]
+fn c04_foreign_spki(ctx: &Ctx, pool: &[crate::keys::PoolKey]) {
+	use crate::ctx::CaseId;
+	use crate::derx;
+	fn long_len(n: usize, extra: usize) -> Vec<u8> {
+		// a length written with `extra` more octets than needed
+		let min: Vec<u8> = n.to_be_bytes().iter().skip_while(|x| **x == 0).cloned().collect();
+		let min = if min.is_empty() { vec![0] } else { min };
+		let mut v = vec![0x80 | (min.len() + extra - if n < 128 { 1 } else { 0 }) as u8];
+		v.extend(std::iter::repeat(0).take(extra - if n < 128 { 1 } else { 0 }));
+		v.extend(min);
+		v
+	}
+	let ik = crate::any_key();
+	let mut cas = crate::spec::ParamSpec::minimal();
+	cas.is_ca = crate::spec::IsCaSpec::Ca(None);
+	let ca = match crate::guard(|| cas.to_rcgen(None).self_signed(&ik)) {
+		Ok(Ok(c)) => c,
+		other => return ctx.violation("c04:issuer-setup", &CaseId::new("foreign-spki", 0, 0), "minimal CA", &format!("{:?}", other.map(|r| r.map(|_| ()).map_err(|e| e.to_string())))),
+	};
+	let keys: Vec<&crate::keys::PoolKey> = pool.iter().filter(|k| !k.is_remote()).collect();
+	for (ki, k) in keys.iter().enumerate() {
+		let canon = k.kp.public_key_der();
+		let (outer, _) = match derx::parse_one(&canon, true) {
+			Ok(x) => x,
+			Err(e) => {
+				ctx.violation("c04:spki:not-der", &CaseId::new("foreign-spki", 0, ki as u64), &k.label, &e);
+				continue;
+			},
+		};
+		let kids = derx::parse_all(outer.content, true).unwrap_or_default();
+		if kids.len() != 2 {
+			continue;
+		}
+		for variant in 0..6u64 {
+			let case = CaseId::new("foreign-spki", 0, (ki as u64) * 8 + variant);
+			if let Some(r) = &ctx.replay {
+				if r.index != case.index {
+					continue;
+				}
+			}
+			let (level, extra) = (variant % 3, 1 + (variant / 3) as usize);
+			let reenc = |t: &derx::Tlv<'_>, long: bool| -> Vec<u8> {
+				let mut v = vec![t.raw[0]];
+				v.extend(if long { long_len(t.content.len(), extra) } else { crate::spec::der_len(t.content.len()) });
+				v.extend(t.content);
+				v
+			};
+			let mut content = reenc(&kids[0], level == 1);
+			content.extend(reenc(&kids[1], level == 2));
+			let mut ber = vec![0x30];
+			ber.extend(if level == 0 { long_len(content.len(), extra) } else { crate::spec::der_len(content.len()) });
+			ber.extend(content);
+			let label = format!("key={} SubjectPublicKeyInfo with a non-minimal length at level {} (+{} octets): {}", k.label, level, extra, crate::util::hex(&ber));
+			ctx.count("enum:foreign-spki");
+			let r = crate::guard(|| -> Result<Option<Vec<u8>>, String> {
+				let spki = match rcgen::SubjectPublicKeyInfo::from_der(&ber) {
+					Ok(s) => s,
+					Err(_) => return Ok(None),
+				};
+				let c = rcgen::CertificateParams::default().signed_by(&spki, &ca, &ik).map_err(|e| e.to_string())?;
+				Ok(Some(c.der().to_vec()))
+			});
+			match r {
+				Err(p) => ctx.violation("c04:cert-panic", &case, &label, &p),
+				Ok(Err(e)) => ctx.violation("c04:cert-refused", &case, &label, &e),
+				Ok(Ok(None)) => ctx.count("outcome:foreign-spki:refused"),
+				Ok(Ok(Some(der))) => {
+					ctx.count("outcome:foreign-spki:accepted");
+					let mut errs = Vec::new();
+					derx::check_canonical(&der, "cert", &mut errs);
+					match crate::x509::parse_certificate(&der) {
+						Ok(v) if v.spki.raw == canon => {},
+						Ok(v) => errs.push(format!("subjectPublicKeyInfo written as {} instead of the canonical {}", crate::util::hex(&v.spki.raw), crate::util::hex(&canon))),
+						Err(e) => errs.push(format!("schema: {}", e)),
+					}
+					for e in errs {
+						ctx.violation(&format!("c04:foreign-spki:{}", certs::classify(&e)), &case, &label, &e);
+					}
+				},
+			}
+		}
+	}
 }
 
 #[cfg(all(feature = "crypto", feature = "ossl"))]
